@@ -10,3 +10,4 @@ pub use crate::global::{current_run_num, mark_new_run};
 pub use crate::selection::Selection;
 pub use crate::ansi::{verif_merge_fragments, ANSIParser, AnsiString};
 pub use crate::util::{depends_on_items, escape_single_quote, inject_command, InjectContext};
+pub use crate::input::{parse_action_arg, parse_key_action, Input};
